@@ -8,6 +8,10 @@ Case kinds
   recv  one raw JSON frame fed through run_async into a fresh LanguageServer endpoint
         (classification rows, generic objects, the finding classes, malformed frames).
   d2o   pygls.protocol._dict_to_object called directly.
+  stream several typed messages of different byte lengths in ONE byte stream through the real
+        run_async and run, with a failing frame (invalid params, unknown response id, undecodable
+        JSON, surplus member, other version) before / between / after them: every well-formed typed
+        payload must reach its handler equal to the converter alone on its own frame.
   btrip built-ins ON: for every method LanguageServerProtocol handles itself (except exit) a user
         feature is registered for the same method on a fresh LanguageServer; generated instances
         (for initialize: rootPath / rootUri / workspaceFolders absent / null / set in all
@@ -369,7 +373,7 @@ class C13(core.Property):
                    "reply_structured_as_requested", "generic_paths_preserved", "generic_leaves_reachable", "generic_handler_gets_object",
                    "spec_leaves_sound", "helpers_ok_sound", "helpers_ok_current", "trip_reference_agrees",
                    "C13_reference_agrees", "C13_partial", "C13_refuted_type_name", "C13_refuted_nested_jsonrpc",
-                   "C13_refuted_array_params", "C13_refuted_kind_mismatch", "C13_refuted", "C13_nonvacuous", "C13_falsy_ids", "user_feature_gets_params"]
+                   "C13_refuted_array_params", "C13_refuted_kind_mismatch", "C13_refuted", "C13_nonvacuous", "C13_falsy_ids", "user_feature_gets_params", "stream_frame_delivered"]
     coq_targets = ["Props/C13.vo", "Extract/ExtractC13.vo"]
     rule = ("trip: every helper of the regenerated table x n seeded instances of its params (and result) type; "
             "non-trivial = the params instance has >= 1 optional/union/enum/sequence field populated (or the method "
@@ -477,7 +481,8 @@ class C13(core.Property):
                 cases.append({"k": "trip", "side": h["side"], "helper": h["name"], "seed": rng.randrange(10 ** 9)})
         cases.extend(self._recv_cases(chk))
         cases.extend(self._btrip_cases(chk))
-        for _ in range(chk.n(10000, 40000)):
+        cases.extend(self._stream_cases(chk))
+        for _ in range(chk.n(6000, 40000)):
             cases.append({"k": "d2o", "j": self._rjson(rng, rng.choice([0, 0, 0, 1, 2]), top=True)})
         for c in cases:
             if c["k"] == "trip" and "pop" not in c:
@@ -541,7 +546,7 @@ class C13(core.Property):
                             for ownm in (None, "x/sent", "textDocument/hover"):
                                 # a response answers OUR request sent under the caller-chosen id idv;
                                 # a request never uses the id of an own outstanding request
-                                own = () if ownm is None else ((ownm, idv if (i and not m) else OTHER),)
+                                own = () if ownm is None else ((ownm, idv if (i and (e or not m)) else OTHER),)
                                 for extra in ((), ("result",), ("params",)):
                                     w = {"jsonrpc": J}
                                     if i: w["id"] = idv
@@ -577,7 +582,7 @@ class C13(core.Property):
                 w = {"jsonrpc": J, "id": ti, "result": self._rjson(rng, rng.choice([0, 1, 2, 3]), top=True)}
             add(w, sends)
         # unknown methods: random generic payloads
-        for _ in range(chk.n(6000, 25000)):
+        for _ in range(chk.n(4000, 25000)):
             w = {"jsonrpc": J, "method": rng.choice(["x/unknown", "y/other", "textDocument/notInRegistry"])}
             if rng.random() < 0.5: w["id"] = rng.choice([1, 2, "r-1", 10 ** 10])
             if rng.random() < 0.95: w["params"] = self._rjson(rng, rng.choice([0, 1, 2, 3]), top=True)
@@ -637,6 +642,104 @@ class C13(core.Property):
             for meth, params in (("x/unknown", {"a": 1}), ("textDocument/hover", pos)):
                 add({"jsonrpc": J, "id": own[1], "method": meth, "params": params}, [own], malformed=True)
         return out
+
+    # ---- streams: several typed messages in one byte stream, a failing frame at every position ----
+    BAD = ("invalid-params", "unknown-response-id", "undecodable", "extra-member", "version-1.0", "invalid-request-params")
+
+    def _stream_methods(self):
+        t = self._types()
+        skip = {t.WORKSPACE_EXECUTE_COMMAND, t.CANCEL_REQUEST}
+        return [m for m in t.METHOD_TO_TYPES if t.message_direction(m) != "serverToClient" and m not in skip]
+
+    def _stream_cases(self, chk):
+        rng = chk.rng
+        ms = self._stream_methods()
+        out = []
+        for _ in range(chk.n(40, 400)):
+            good = [["good", rng.choice(ms), rng.randrange(10 ** 9)] for _ in range(rng.randint(2, 4))]
+            bad = rng.choice(self.BAD)
+            for pos in range(len(good) + 1):                 # the failing frame before / between / after
+                out.append({"k": "stream", "frames": good[:pos] + [["bad", bad]] + good[pos:]})
+            if rng.random() < 0.3:                           # two failing frames in a row, then typed ones
+                out.append({"k": "stream", "frames": [["bad", bad], ["bad", rng.choice(self.BAD)]] + good})
+        return out
+
+    def _stream_frames(self, c):
+        """per frame: (body bytes, wire JSON or None, registry type or None, valid?)"""
+        import attrs
+        t = self._types()
+        frames = []
+        for n, f in enumerate(c["frames"]):
+            if f[0] == "good":
+                m = f[1]
+                msg, res, par, _o = t.METHOD_TO_TYPES[m]
+                is_req = "id" in {a.name for a in attrs.fields(msg)}
+                wire = None
+                for attempt in range(30):
+                    g = Gen(random.Random(f[2] + 7919 * attempt))
+                    params = g.gen(par) if par is not None else None
+                    try:
+                        kw = {"id": f"s-{n}"} if is_req else {}
+                        wire = self._fresh.unstructure(msg(method=m, params=params, jsonrpc="2.0", **kw))
+                        self._fresh.structure(copy.deepcopy(wire), msg)
+                        break
+                    except Exception:
+                        wire = None
+                frames.append((json.dumps(wire).encode("utf-8"), wire, msg, True))
+            else:
+                kind = f[1]
+                if kind == "undecodable":
+                    frames.append((b'{"jsonrpc": "2.0", "method": "textDocument/didOpen", "params": {', None, None, False))
+                    continue
+                wire = {"invalid-params": {"jsonrpc": "2.0", "method": "textDocument/didOpen", "params": {"textDocument": 1}},
+                        "invalid-request-params": {"jsonrpc": "2.0", "id": f"b-{n}", "method": "textDocument/hover", "params": {"position": "x"}},
+                        "unknown-response-id": {"jsonrpc": "2.0", "id": "nobody-asked", "result": {"a": 1}},
+                        "extra-member": {"jsonrpc": "2.0", "method": "x/unknown", "params": {}, "surplus": True},
+                        "version-1.0": {"jsonrpc": "1.0", "method": "textDocument/didOpen", "params": {}}}[kind]
+                e = t.METHOD_TO_TYPES.get(wire.get("method"))
+                frames.append((json.dumps(wire).encode("utf-8"), wire, e[0] if e else None, False))
+        return frames
+
+    async def _stream(self, c):
+        from pygls.io_ import run_async, run
+        import io
+        t = self._types()
+        frames = self._stream_frames(c)
+        data = b"".join(b"Content-Length: %d\r\n\r\n" % len(b) + b for b, _w, _t, _v in frames)
+        expected = [(w["method"], self._fresh.structure(copy.deepcopy(w), tp).params) for _b, w, tp, v in frames if v]
+        obs = {}
+        for loop_kind in ("run_async", "run"):
+            s = self._endpoint()
+            p = s.protocol
+            got = []
+            class W:
+                def write(self, d): pass
+                def close(self): pass
+            p.set_writer(W())
+            s.report_server_error = lambda e, src: None
+            for m in {w["method"] for _b, w, _t, _v in frames if w and isinstance(w.get("method"), str)}:
+                def h(*args, m=m):
+                    got.append((m, args[0]))
+                    return None
+                try: s.feature(m)(h)
+                except Exception: pass
+            if loop_kind == "run_async":
+                reader = asyncio.StreamReader()
+                reader.feed_data(data); reader.feed_eof()
+                await run_async(threading.Event(), reader, p, None, s._report_server_error)
+                for _ in range(3): await asyncio.sleep(0)
+            else:
+                run(threading.Event(), io.BytesIO(data), p, None, s._report_server_error)
+            # delivered typed payloads, in order, each judged against the converter alone on ITS frame
+            seq = []
+            k = 0
+            for m, params in got:
+                if m == "x/unknown": continue
+                while k < len(expected) and expected[k][0] != m: k += 1
+                seq.append([m, k < len(expected) and params == expected[k][1]])
+                k += 1
+            obs[loop_kind] = seq
+        return obs
 
     # ---- built-ins ON: a user feature registered for a method pygls also handles itself ----
     def _builtin_methods(self):
@@ -804,6 +907,8 @@ class C13(core.Property):
                     out[n] = await asyncio.wait_for(self._recv(c), 20)
                 elif c["k"] == "btrip":
                     out[n] = await asyncio.wait_for(self._btrip(c), 20)
+                elif c["k"] == "stream":
+                    out[n] = await asyncio.wait_for(self._stream(c), 30)
                 else:
                     out[n] = self._d2o(c)
             except Exception as ex:
@@ -1046,6 +1151,20 @@ class C13(core.Property):
             return f"trip {self._hrow(self._helper_row(c))} {enc_json('c13-id')}"
         if k == "d2o":
             return "d2o " + enc_json(c["j"])
+        if k == "stream":
+            from cattrs.errors import ClassValidationError
+            frames = self._stream_frames(c)
+            flags, parts = [], []
+            for _b, w, tp, v in frames:
+                if w is None:
+                    parts.append("0"); continue
+                parts.append("1 " + enc_json(w))
+                if tp is not None and w.get("jsonrpc") is not None:
+                    try:
+                        self._fresh.structure(copy.deepcopy(w), tp); flags.append(0)
+                    except ClassValidationError: flags.append(1)
+                    except Exception: flags.append(2)
+            return f"stream {len(flags)} " + " ".join(map(str, flags)) + f" {len(parts)} " + " ".join(parts)
         if k == "btrip":
             return "builtin 1 1"
         sends = f"{len(c['sends'])}" + "".join(f" {enc_str(m)} {enc_json(i)}" for m, i in c["sends"])
@@ -1077,6 +1196,18 @@ class C13(core.Property):
             guard = (not has_tn) and (not arr) and wf
             klass = F_A if has_tn else (F_C if arr else None)
             return {"M": M, "S": {"leaves": leaves}, "guard": guard, "klass": klass}
+        if k == "stream":
+            t = self._types()
+            frames = self._stream_frames(c)
+            n = T.int()
+            seq = []
+            for (_b, w, tp, v), _ in zip(frames, range(n)):
+                tag = T.int()
+                if tag == 1:
+                    ty = T.str(); same = bool(T.int())
+                    seq.append([w["method"], same and tp is not None and ty == tp.__name__])
+            S = [[w["method"], True] for _b, w, _tp, v in frames if v]
+            return {"M": {"run_async": seq, "run": seq}, "S": {"run_async": S, "run": S}, "guard": True, "klass": None}
         if k == "btrip":
             # model: the user's feature is called once with the structured params, which the built-in
             # cannot have written to; reference: the converter alone on the wire JSON (computed by
@@ -1143,15 +1274,20 @@ class C13(core.Property):
         if ok_shape:
             w = wire
             hid, hm, he = "id" in w, "method" in w, "error" in w
-            kind = {(True, True, False): 0, (False, True, False): 1, (True, False, True): 3, (True, False, False): 2}.get((hid, hm, he))
+            # Spec.spec_kind: id + error is an error response (also when a method member is there: JSON-RPC
+            # has no such object and this is the reading that settles the sender's request), method
+            # without id is a notification (also with an error member), no id and no method: nothing
+            kind = {(True, True, False): 0, (False, True, False): 1, (False, True, True): 1,
+                    (True, False, True): 3, (True, True, True): 3, (True, False, False): 2}.get((hid, hm, he))
             allowed = {0: {"jsonrpc", "id", "method", "params"}, 1: {"jsonrpc", "method", "params"},
-                       2: {"jsonrpc", "id", "result"}, 3: {"jsonrpc", "id", "error"}}
+                       2: {"jsonrpc", "id", "result"}, 3: {"jsonrpc", "id", "error", "method", "params"}}
             t = self._types()
             idok = (not hid) or (isinstance(w["id"], (int, str)) and not isinstance(w["id"], bool))
-            clash = hid and hm and any(i == w["id"] and type(i) is type(w["id"]) for _m, i in c["sends"])
+            clash = kind == 0 and any(i == w["id"] and type(i) is type(w["id"]) for _m, i in c["sends"])
             outstanding = [m for m, i in c["sends"] if hid and i == w["id"] and type(i) is type(w["id"])]
             basic = (kind is not None and w.get("jsonrpc") == "2.0" and idok and not clash
-                     and (kind in (0, 1) and isinstance(w["method"], str) or kind in (2, 3) and outstanding))
+                     and (not hm or isinstance(w["method"], str))
+                     and (kind in (0, 1) or outstanding))
             if basic and not (set(w) <= allowed[kind] and (kind != 2 or "result" in w)):
                 # members beyond the ones JSON-RPC names (or a response without result): only the
                 # classification itself is judged - a request is answered (result or error) under its
@@ -1208,7 +1344,7 @@ class C13(core.Property):
         return -1
 
     def satisfies(self, c, impl, S):
-        if c["k"] in ("trip", "btrip"):
+        if c["k"] in ("trip", "btrip", "stream"):
             return impl == S
         if c["k"] == "d2o":
             return impl[0] == "ok" and leaves_hold(impl[1], S["leaves"])
@@ -1247,6 +1383,8 @@ class C13(core.Property):
             return c.get("pop", 0) >= 1
         if c["k"] == "btrip":
             return True
+        if c["k"] == "stream":
+            return len(c["frames"]) >= 3
         v = c["j"] if c["k"] == "d2o" else c["wire"]
         def deep(x, d):
             if isinstance(x, dict):
@@ -1259,6 +1397,12 @@ class C13(core.Property):
         return deep(v, 0 if c["k"] == "recv" else 1)
 
     def shrink(self, c):
+        if c["k"] == "stream":
+            fr = c["frames"]
+            for i in range(len(fr)):
+                if len(fr) > 1:
+                    yield dict(c, frames=fr[:i] + fr[i + 1:])
+            return
         if c["k"] in ("trip", "btrip"):
             return
         key = "j" if c["k"] == "d2o" else "wire"
@@ -1322,6 +1466,7 @@ class C13(core.Property):
         for c in cases:
             if c["k"] == "trip": d["trip/" + c["side"]] += 1
             elif c["k"] == "btrip": d["builtin-on/" + c["method"]] += 1
+            elif c["k"] == "stream": d["stream/" + next(f[1] for f in c["frames"] if f[0] == "bad")] += 1
             elif c["k"] == "recv": d["recv/" + (c.get("klass") or ("malformed" if c.get("malformed") else "stream"))] += 1
             else: d["d2o"] += 1
         return dict(d)
